@@ -350,7 +350,7 @@ fn lifecycle(_sigs: &[Vec<i128>], l: &mut Local, states: &mut HashSet<Vec<u8>>, 
 }
 
 fn class_name(c: u64) -> String {
-    match c >> 8 { 1 => format!("F1 two threads x three steps/op {}", OP_NAMES[(c & 255) as usize]), 2 => format!("F2 three threads x two steps/op {}", OP_NAMES[(c & 255) as usize]),
+    match c >> 8 { 0 => "F0 single thread".to_string(), 1 => format!("F1 two threads x three steps/op {}", OP_NAMES[(c & 255) as usize]), 2 => format!("F2 three threads x two steps/op {}", OP_NAMES[(c & 255) as usize]),
         3 => format!("F3 lifecycle/op {}", OP_NAMES[(c & 255) as usize]), 4 => format!("F4 three threads x three steps/op {}", OP_NAMES[(c & 255) as usize]), _ => format!("class {}", c) }
 }
 
@@ -361,15 +361,15 @@ pub fn run(tier: Tier) -> i32 {
     // the probe vector must identify the mode: all 8 signatures pairwise distinct, and under the
     // pristine single-thread semantics every operation kind reproduces the signature of the mode set
     for i in 0..8 { for j in 0..i { assert!(sigs[i] != sigs[j], "probe vector does not separate {} and {}", i, j); } }
-    let mut selfcheck_ok = true;
-    for m in 0..8u8 { for k in 0..7u8 {
-        let o = run_batch(&[vec![Step::Set(m), Step::Op(k)]], &[vec![0, 0]])[0][1];
-        if o != m {
-            selfcheck_ok = false;
-            run.seq(|l| l.violation(format!("single thread | Op({}) | operation does not round with the mode set on its own thread", OP_NAMES[k as usize]), || (format!("mode {} set, Op({}) behaves like {}", mname(m), OP_NAMES[k as usize], mname(o)), json!({"family": "F1", "scripts": [[["set", m], ["op", k]]], "schedule": [0, 0]}))));
-        }
-    }}
-    let _ = selfcheck_ok;
+    // F0: one thread: every operation kind rounds with the mode set on its own thread (8 modes x 7 kinds)
+    run.seq(|l| {
+        let mut st = HashSet::new();
+        for m in 0..8u8 { for k in 0..7u8 {
+            check_schedule("F0 single thread", &[vec![Step::Set(m), Step::Op(k), Step::Get]], &[0, 0, 0], &sigs, l, &mut st);
+            l.distinct += 1;
+        }}
+        l.class(0);
+    });
 
     let templates = |m: u8, k: u8| -> Vec<Vec<Step>> { vec![
         vec![Step::Set(m), Step::Op(k), Step::Get],
